@@ -164,6 +164,8 @@ def subsume_guard(ctx, R):
 def run(ctx):
     P = ctx.prog
     subsume_operands(ctx, "C10-R4")
+    # R5: mask_trimmed must keep every set bit: trim_trailing_zeros (adopted from C16-R2)
+    ctx.import_clauses("c16", "C16-R2", ["trim_trailing_zeros:"], "C10-R5")
     cb = ctx.body(SBC)
     ap = ctx.body(TS + "::apply")
     # ---------------------------------------------------------------- R1
